@@ -168,6 +168,8 @@ def _evaluate(line, out):
             W["pw"] = b.parse_pw(a[1:])
         elif c == "M":
             W["mtime"] = None if a[1:] == "!" else int(a[1:])
+        elif c == "Y":
+            W["symlink"] = a[1:] != "-"
         elif c == "S":
             do_sighup(where)
         elif c in "ct":
@@ -239,7 +241,9 @@ def _evaluate(line, out):
             raise Fail("both", "%s: log inconsistent about a scan having been made (%s)" % (desc, t))
         if must and not attempted:
             raise Fail("C17", "%s did not rebuild the map although the mtime check is off/disabled, stat() failed or "
-                       "the group file (mtime %s) is newer than the previous load (%d)" % (desc, mtime, t_last))
+                       "the group file (mtime %s) is newer than the previous load (%d)%s" % (
+                           desc, mtime, t_last, "; the group file is a symbolic link and this is its target's mtime, the one "
+                           "stat() reports" if W.get("symlink") else ""))
         fault = hook[3]
         ok = attempted and not (fault is not None and fault <= len(snap[0]))
         outcome = ("not attempted (mtime test)" if not attempted else
@@ -265,8 +269,8 @@ def _evaluate(line, out):
             refresh()
         t = take()
         if t == "!norest":
-            raise Fail("C18", "the timer thread does not come to rest although the clock stands still: refresh timers keep "
-                       "firing (log tail: %s)" % " ".join(toks[max(0, pos[0] - 8):pos[0]]))
+            raise Fail("C18", "the timer thread does not come to rest although the clock stands still (it keeps waking up, or "
+                       "refresh timers keep firing) (log tail: %s)" % " ".join(toks[max(0, pos[0] - 8):pos[0]]))
         if t != "|":
             raise Fail("both", "unexpected token %r in the log" % t)
         due = [(e, i) for i, e in S["pending"].items() if e <= S["clock"]]
